@@ -14,7 +14,8 @@ import (
 // C08 part B — end to end: series sets × put/rotate/restart histories through the real ingest and query endpoints.
 
 type c08Step struct {
-	Op     string `json:"op"` // put | block | segment | restart
+	Op     string `json:"op"` // put | puts (Count datapoints one second apart, values Count.. ) | block | segment | restart
+	Count  int    `json:"count,omitempty"`
 	Series int    `json:"series,omitempty"`
 	Bits   uint64 `json:"bits,omitempty"`
 	Value  string `json:"value,omitempty"`
@@ -123,6 +124,25 @@ func c08RunE2E(w0 *kernel.Worker, j *c08Job, rep *kernel.Report) (*Fail, error) 
 				model[s.Key()][ts] = st.Bits
 			} else if raw == "" {
 				return &Fail{FP: "C08/e2e-put-no-answer", What: "empty response to put"}, nil
+			}
+		case "puts":
+			s := series[st.Series]
+			for n := 0; n < st.Count; n++ {
+				ts++
+				v := float64(n) + 0.25
+				ok, raw, err := mPut(w, s, ts, v)
+				if err != nil {
+					return die(err)
+				}
+				rep.Transition(1)
+				if ok {
+					if model[s.Key()] == nil {
+						model[s.Key()] = map[uint32]uint64{}
+					}
+					model[s.Key()][ts] = math.Float64bits(v)
+				} else if raw == "" {
+					return &Fail{FP: "C08/e2e-put-no-answer", What: "empty response to put"}, nil
+				}
 			}
 		case "block", "segment":
 			var r map[string]interface{}
@@ -351,6 +371,29 @@ func c08EnumerateE2E(tier string, emit func(c08Job)) {
 					emit(c08Job{Series: []MSeries{alpha[a], alpha[b]}, Steps: steps})
 				}
 			}
+		}
+	}
+	// (d) one series with n1 datapoints in one block and n2 in the next (read back as two partial series that have to be
+	// joined): every n1, n2 ≤ 12 and a few larger pairs, the second block left open or rotated too
+	type pair struct{ a, b int }
+	var pairs []pair
+	maxn := 6
+	if tier == "thorough" {
+		maxn = 12
+	}
+	for a := 1; a <= maxn; a++ {
+		for b := 1; b <= maxn; b++ {
+			pairs = append(pairs, pair{a, b})
+		}
+	}
+	pairs = append(pairs, pair{8, 5}, pair{9, 3}, pair{30, 15}, pair{60, 50}, pair{100, 12}, pair{12, 100})
+	for _, pr := range pairs {
+		for _, end := range []string{"", "block", "segment"} {
+			steps := []c08Step{{Op: "puts", Count: pr.a}, {Op: "block"}, {Op: "puts", Count: pr.b}}
+			if end != "" {
+				steps = append(steps, c08Step{Op: end})
+			}
+			emit(c08Job{Series: alpha[:1], Steps: steps})
 		}
 	}
 	if tier == "thorough" {
